@@ -19,6 +19,7 @@ TStep == /\ l <= Len(Ev) /\ l' = l + 1 /\ UNCHANGED t
             ELSE IF e.e = "send" THEN Send(e.s) /\ (holder = e.s \/ PrintT(ToJson([tid |-> t, at |-> l, note |-> "request-forwarded-without-exclusive-use-of-the-route-connection"])))
             ELSE IF e.e = "rcv" THEN Answer(e.s) /\ Head(wire)[1] = e.of
             ELSE IF e.e = "rcvreg" THEN holder = e.s /\ pc[e.s] = "held" /\ wire = <<>> /\ UNCHANGED cvars   \* the Register Session reply (connector creation)
+            ELSE IF pc[e.s] = "wait" THEN ReleaseWaiting(e.s) /\ PrintT(ToJson([tid |-> t, at |-> l, note |-> "route-connection-given-up-between-forwarding-and-reading-the-reply"]))
             ELSE Release(e.s) \/ Establish(e.s)
 TSpec == TInit /\ [][TStep]_tvars
 Why == IF Ev[l].e = "send" THEN "request-forwarded-without-exclusive-use-of-the-route-connection"
